@@ -90,6 +90,7 @@ class World:
         self.contract_hook = None
         from . import intrinsics
         intrinsics.install(self)
+        self.model_module("vfs")    # loaded up front, so that its objects are part of every path's base heap
 
     def module_path(self, modname):
         rel = modname.replace(".", "/")
@@ -122,6 +123,22 @@ class World:
         m.globals["__name__"] = modname
         fr = Frame(m, m.globals, None)
         self.loader.exec_block(m.tree.body, fr)
+        m.loaded = True
+        return m
+
+    def model_module(self, name):
+        """a model written as Python source under pyvc/models/, run by this interpreter (e.g. the virtual file system)"""
+        key = "<model>." + name
+        if key in self.modules:
+            return self.modules[key]
+        path = os.path.join(os.path.dirname(os.path.abspath(__file__)), "models", name + ".py")
+        m = ModuleVal(key, path)
+        self.modules[key] = m
+        m.source = open(path).read()
+        m.tree = ast.parse(m.source, filename=path)
+        m.is_pkg = False
+        m.globals["__name__"] = key
+        self.loader.exec_block(m.tree.body, Frame(m, m.globals, None))
         m.loaded = True
         return m
 
@@ -1323,8 +1340,10 @@ class Ctx:
                 except ReturnEx:
                     pass
                 except PyRaise:
+                    if eager_generator:
+                        raise    # the function under contract: consumed to the end by the verifier, so the raise is the call's outcome
                     raise Unsupported("generator function that raises (evaluated eagerly by the engine)")
-                if any(i < first_new for i in self.write_log[n0:]):
+                if not eager_generator and any(i < first_new for i in self.write_log[n0:]):
                     raise Unsupported("generator function with side effects on existing objects (evaluated eagerly by the engine)")
                 return self.new_list(fr.yields)
             try:
